@@ -3,7 +3,11 @@
 package main
 
 import (
+	"context"
+
 	"fmt"
+	"github.com/sourcegraph/zoekt"
+	"github.com/sourcegraph/zoekt/query"
 	"os"
 	"os/exec"
 	"path/filepath"
@@ -46,6 +50,25 @@ func c35Alive(dir string) (map[string][]string, []string) {
 	return out, broken
 }
 
+// c35DocNames lists the document names a shard file serves.
+func c35DocNames(path string) (map[string]bool, error) {
+	s, err := gen.Open(path)
+	if err != nil {
+		return nil, err
+	}
+	defer s.Close()
+	o := zoekt.SearchOptions{ShardMaxMatchCount: 1 << 30, TotalMaxMatchCount: 1 << 30}
+	res, err := s.Search(context.Background(), &query.Const{Value: true}, &o)
+	if err != nil {
+		return nil, err
+	}
+	out := map[string]bool{}
+	for _, f := range res.Files {
+		out[f.FileName] = true
+	}
+	return out, nil
+}
+
 func c35Copy(src, dst string) {
 	os.MkdirAll(dst, 0o755)
 	if out, err := exec.Command("cp", "-a", src+"/.", dst).CombinedOutput(); err != nil {
@@ -62,15 +85,20 @@ func TestVerifC35(t *testing.T) {
 		explode bool
 		repos   []*ref.Repo
 		tomb    int // explode: index of a tombstoned repository or -1
+		// fresh: the tombstoned repository has since been re-indexed into its own simple shard, which
+		// lies beside the compound shard (the situation tombstones exist for)
+		fresh bool
 	}
 	c := gen.CompoundCorpus
 	scens := []scenario{
-		{"merge-1", false, c()[:1], -1},
-		{"merge-2", false, c()[:2], -1},
-		{"merge-3", false, c(), -1},
-		{"explode-2", true, c()[:2], -1},
-		{"explode-3", true, c(), -1},
-		{"explode-3-tomb", true, c(), 1},
+		{"merge-1", false, c()[:1], -1, false},
+		{"merge-2", false, c()[:2], -1, false},
+		{"merge-3", false, c(), -1, false},
+		{"explode-2", true, c()[:2], -1, false},
+		{"explode-3", true, c(), -1, false},
+		{"explode-3-tomb", true, c(), 1, false},
+		{"explode-3-tomb-reindexed", true, c(), 1, true},
+		{"explode-2-tomb-first-reindexed", true, c()[:2], 0, true},
 	}
 	states, transitions := 0, 0
 	for _, sc := range scens {
@@ -86,7 +114,7 @@ func TestVerifC35(t *testing.T) {
 		var inputs []string // base names
 		var wantRepos []string
 		for i, rp := range sc.repos {
-			if sc.explode && i == sc.tomb {
+			if sc.explode && i == sc.tomb && !sc.fresh {
 				continue
 			}
 			wantRepos = append(wantRepos, rp.Name)
@@ -103,6 +131,14 @@ func TestVerifC35(t *testing.T) {
 				}
 			}
 			inputs = []string{filepath.Base(p)}
+			if sc.fresh {
+				// the re-indexed copy: same repository, one more document
+				fr := *sc.repos[sc.tomb]
+				fr.Docs = append(append([]*ref.Doc{}, fr.Docs...), &ref.Doc{Name: "added-after-reindex.txt", Content: []byte("fresh copy abc"), Branches: fr.Branches[:1], Language: "Text"})
+				if _, err := gen.WriteSimple(tmpl, &fr); err != nil {
+					t.Fatal(err)
+				}
+			}
 		} else {
 			for _, rp := range sc.repos {
 				p, err := gen.WriteSimple(tmpl, rp)
@@ -153,6 +189,17 @@ func TestVerifC35(t *testing.T) {
 			}
 			if len(broken) > 0 {
 				r.Violation(fmt.Sprintf("%s %s: unloadable shard under a final name after [%s]", sc.name, kind, sig), fmt.Sprint(broken), map[string]any{"case": sc.name})
+			}
+			if sc.fresh {
+				// the re-indexed copy must stay the one that is served: never replaced by the stale,
+				// tombstoned copy from the compound shard
+				name := sc.repos[sc.tomb].Name
+				for _, f := range alive[name] {
+					if docs, err := c35DocNames(filepath.Join(dir, f)); err == nil && !docs["added-after-reindex.txt"] {
+						r.Violation(fmt.Sprintf("%s %s: the stale tombstoned copy of %s is served from %s after [%s]", sc.name, kind, name, c35Generic(f), sig),
+							fmt.Sprintf("%s %s at %d: %s is alive in %s, which lacks the document added by the re-index (documents %v)", sc.name, kind, k, name, f, docs), map[string]any{"case": sc.name})
+					}
+				}
 			}
 			if !success {
 				return
